@@ -36,7 +36,9 @@
 //! section 4 (C12)  ECDH wrap: crypto::ecdh::encrypt of every length 1..=64 (thorough ..=239), Curve25519Legacy and
 //!     P256: wrapped length == 8 * (len / 8 + 1) + 8; for Curve25519Legacy an INDEPENDENT recipient (x25519-dalek, own
 //!     RFC 6637 KDF with a hand-built parameter block, own RFC 3394 unwrap over the aes crate) finds 1..=8 pad octets
-//!     of that value and the message; the library decrypts its own output
+//!     of that value and the message; the library decrypts its own output; (kdf) ecdh::kdf == HASH(00 00 00 01 || x || Param)
+//!     for 32/48/66 octet shared secrets with 0/1/2/31 leading zero octets and all-zero; (kdf-e2e) Curve25519Legacy exchanges
+//!     whose shared secret starts with 00 (searched): independent recipient / independent sender interoperate
 //! section 5 (C04)  hostile ECDH padding: validly wrapped plaintexts consisting only of one octet p (p = 0..255,
 //!     1..=5 blocks), produced by an independent sender, through ecdh::derive_session_key, SecretKey::decrypt and
 //!     Message::decrypt (hand-built PKESK v3): never a panic, p > len => error, 1 <= p < len => the unpadded value
@@ -1609,6 +1611,162 @@ fn section4(ctx: &mut Ctx, n: u64) {
                     .map_err(|x| format!("(wrap) the library does not decrypt its own output: {x}"))?;
                 if back[..] != plain[..] {
                     return Err("(wrap) decrypt(encrypt(x)) != x".into());
+                }
+                Ok(true)
+            });
+        }
+    }
+    section4_kdf(ctx);
+}
+
+fn ref_kdf(hash: HashAlgorithm, x: &[u8], len: usize, param: &[u8]) -> Option<Vec<u8>> {
+    fn with<D: sha2::Digest>(x: &[u8], param: &[u8]) -> Vec<u8> {
+        let mut h = D::new();
+        h.update([0u8, 0, 0, 1]);
+        h.update(x);
+        h.update(param);
+        h.finalize().to_vec()
+    }
+    let mut d = match hash {
+        HashAlgorithm::Sha256 => with::<sha2::Sha256>(x, param),
+        HashAlgorithm::Sha384 => with::<sha2::Sha384>(x, param),
+        HashAlgorithm::Sha512 => with::<sha2::Sha512>(x, param),
+        _ => return None,
+    };
+    d.truncate(len);
+    Some(d)
+}
+
+/// (kdf)     ecdh::kdf == leftmost len octets of HASH(00 00 00 01 || x || param) for shared secrets x of the field sizes
+///           32 / 48 / 66 with 0, 1, 2, 31 leading zero octets and all-zero: ZB is a FIXED size octet string (RFC 9580 11.4)
+/// (kdf-e2e) Curve25519Legacy exchanges whose shared secret starts with 00 (searched over ChaCha8Rng seeds / ephemeral
+///           secrets): the independent recipient unwraps the library's output, the library accepts the independent sender
+fn section4_kdf(ctx: &mut Ctx) {
+    // Param of RFC 9580 11.5 written out by hand (P-256, SHA2-256, AES-128); any octet string serves for (kdf)
+    let mut param = vec![0x08, 0x2A, 0x86, 0x48, 0xCE, 0x3D, 0x03, 0x01, 0x07, 18, 0x03, 0x01, 0x08, 0x07];
+    param.extend_from_slice(b"Anonymous Sender    ");
+    param.extend_from_slice(&[0x42u8; 20]);
+    for (si, size) in [32usize, 48, 66].iter().enumerate() {
+        for (zi, lz) in [0usize, 1, 2, 31, usize::MAX].iter().enumerate() {
+            let id = format!("048{:x}{:x}", si, zi);
+            if !ctx.wanted(&id) {
+                continue;
+            }
+            let x: Vec<u8> = (0..*size).map(|i| if i < *lz { 0 } else { 0xa7u8.wrapping_add(i as u8) | 1 }).collect();
+            let desc = format!("ecdh::kdf shared secret {} ({} octets), SHA256/384/512, 16/24/32 octets, hand-built P-256 Param with fingerprint 42*20", hex(&x), size);
+            let param = &param;
+            ctx.run(&id, &desc, move || {
+                for hash in [HashAlgorithm::Sha256, HashAlgorithm::Sha384, HashAlgorithm::Sha512] {
+                    for len in [16usize, 24, 32] {
+                        let got = ecdh::kdf(hash, &x, len, param).map_err(|e| format!("(kdf) kdf fails: {e}"))?;
+                        let want = ref_kdf(hash, &x, len, param).ok_or("(harness) no reference")?;
+                        if got != want {
+                            return Err(format!("(kdf) {hash:?} {len} octets: kdf gives {} but HASH(00000001 || ZB || Param) with the fixed size ZB gives {}", hex(&got), hex(&want)));
+                        }
+                    }
+                }
+                Ok(true)
+            });
+        }
+    }
+
+    // (kdf-e2e)
+    if !ctx.replay.as_ref().map(|r| r.starts_with("049")).unwrap_or(true) {
+        return;
+    }
+    let mut rng = ChaCha8Rng::seed_from_u64(0xC12);
+    let Ok(secret) = ecdh::SecretKey::generate(&mut rng, &ECCCurve::Curve25519Legacy) else { return };
+    let Ok(public): Result<EcdhPublicParams, _> = (&secret).try_into() else { return };
+    let EcdhPublicParams::Curve25519Legacy { p: recipient_pub, hash, alg_sym, .. } = &public else { return };
+    if *hash != HashAlgorithm::Sha256 || *alg_sym != SymmetricKeyAlgorithm::AES128 {
+        return;
+    }
+    let Some(my) = cv_secret(&secret) else { return };
+    let fingerprint = [0x24u8; 20];
+    // m = algorithm octet || AES-128 session key || checksum
+    let mut session = vec![0x07u8];
+    session.extend((0..16u8).map(|i| 0x42 ^ i));
+    let ck: u16 = session[1..].iter().map(|b| *b as u16).sum();
+    session.extend_from_slice(&ck.to_be_bytes());
+
+    // the library as sender: first ChaCha8Rng seed whose exchange has a shared secret starting with 00
+    let mut found = None;
+    for s in 0..4096u64 {
+        let mut erng = ChaCha8Rng::seed_from_u64(s);
+        let r = catch_unwind(AssertUnwindSafe(|| ecdh::encrypt(&mut erng, &public, &fingerprint, &session)));
+        let Ok(Ok(PkeskBytes::Ecdh { public_point, encrypted_session_key })) = r else { break };
+        let pp = public_point.as_ref();
+        if pp.len() != 33 || pp[0] != 0x40 {
+            break;
+        }
+        let eph: [u8; 32] = pp[1..].try_into().unwrap();
+        let shared = my.diffie_hellman(&x25519_dalek::PublicKey::from(eph));
+        if shared.as_bytes()[0] == 0 {
+            found = Some((s, *shared.as_bytes(), public_point, encrypted_session_key));
+            break;
+        }
+    }
+    match found {
+        None => println!("INFO kdf-e2e: no ChaCha8Rng seed below 4096 gives a shared secret with a leading zero octet"),
+        Some((s, shared, public_point, wrapped)) => {
+            let id = format!("0490{:03x}", s);
+            let desc = format!("ecdh::encrypt Curve25519Legacy (recipient of ChaCha8Rng seed 0xc12, ephemeral from ChaCha8Rng seed {s}) with shared secret {} of a 19 octet session key", hex(&shared));
+            let secret = &secret;
+            let session = &session;
+            ctx.run(&id, &desc, move || {
+                let kek = ecdh_kek_cv25519(&shared, &fingerprint);
+                let padded = kw_unwrap(&kek, &wrapped).map_err(|x| format!("(kdf-e2e) shared secret starts with 00: an independent RFC 9580 11.4 recipient (fixed size ZB) cannot unwrap what the library sent: {x}"))?;
+                if padded.len() != 24 || padded[..19] != session[..] || padded[19..] != [5u8; 5] {
+                    return Err(format!("(kdf-e2e) independent recipient gets {}", hex(&padded)));
+                }
+                let back = secret
+                    .decrypt(ecdh::EncryptionFields { public_point: &public_point, encrypted_session_key: &wrapped, fingerprint: &fingerprint, curve: ECCCurve::Curve25519Legacy, hash: HashAlgorithm::Sha256, alg_sym: SymmetricKeyAlgorithm::AES128 })
+                    .map_err(|x| format!("(kdf-e2e) the library does not decrypt its own output: {x}"))?;
+                if back[..] != session[..] {
+                    return Err("(kdf-e2e) decrypt(encrypt(x)) != x".into());
+                }
+                Ok(true)
+            });
+        }
+    }
+
+    // the independent sender: first ephemeral secret (k, k+1, .. repeated pattern) whose shared secret starts with 00
+    let mut found = None;
+    for k in 0..4096u32 {
+        let mut raw = [0x31u8; 32];
+        raw[..4].copy_from_slice(&k.to_le_bytes());
+        let eph = x25519_dalek::StaticSecret::from(raw);
+        let shared = eph.diffie_hellman(recipient_pub);
+        if shared.as_bytes()[0] == 0 {
+            found = Some((k, raw, *shared.as_bytes(), x25519_dalek::PublicKey::from(&eph)));
+            break;
+        }
+    }
+    match found {
+        None => println!("INFO kdf-e2e: no ephemeral secret below 4096 gives a shared secret with a leading zero octet"),
+        Some((k, raw, shared, eph_pub)) => {
+            let id = format!("0491{:03x}", k);
+            let desc = format!("independent sender to the Curve25519Legacy recipient of ChaCha8Rng seed 0xc12, ephemeral secret {}, shared secret {}, 19 octet session key + 5 pad octets", hex(&raw), hex(&shared));
+            let secret = &secret;
+            let session = &session;
+            ctx.run(&id, &desc, move || {
+                let kek = ecdh_kek_cv25519(&shared, &fingerprint);
+                let mut padded = session.clone();
+                padded.extend_from_slice(&[5u8; 5]);
+                let wrapped = kw_wrap(&kek, &padded);
+                let got = ecdh::derive_session_key(&shared, &wrapped, wrapped.len(), ECCCurve::Curve25519Legacy, HashAlgorithm::Sha256, SymmetricKeyAlgorithm::AES128, &fingerprint)
+                    .map_err(|x| format!("(kdf-e2e) shared secret starts with 00: derive_session_key refuses a session key wrapped per RFC 9580 11.4/11.5: {x}"))?;
+                if got[..] != session[..] {
+                    return Err(format!("(kdf-e2e) derive_session_key gives {}", hex(&got)));
+                }
+                let mut point = vec![0x40u8];
+                point.extend_from_slice(eph_pub.as_bytes());
+                let point = pgp::types::Mpi::from_slice(&point);
+                let got = secret
+                    .decrypt(ecdh::EncryptionFields { public_point: &point, encrypted_session_key: &wrapped, fingerprint: &fingerprint, curve: ECCCurve::Curve25519Legacy, hash: HashAlgorithm::Sha256, alg_sym: SymmetricKeyAlgorithm::AES128 })
+                    .map_err(|x| format!("(kdf-e2e) shared secret starts with 00: SecretKey::decrypt refuses a session key wrapped per RFC 9580 11.4/11.5: {x}"))?;
+                if got[..] != session[..] {
+                    return Err(format!("(kdf-e2e) SecretKey::decrypt gives {}", hex(&got)));
                 }
                 Ok(true)
             });
